@@ -33,6 +33,7 @@ type Engine struct {
 	fresh       int
 	Notes       map[string]bool // assumptions / abstraction notes collected during runs
 	usedTrusted map[string]bool
+	skipVacuity bool
 }
 
 type UFunc struct {
